@@ -53,6 +53,19 @@ func hashCommitShape(P *Program, R *Report, rule string) {
 						digestInputOK = true
 					}
 				}
+			case isCallTo(c, "common.IntHashSha256"):
+				// the package's own "SHA-256 of exactly these bytes, as an integer" (C15.c decides that it is): digest and
+				// conversion in one
+				sum = cc
+				nSum++
+				setBytes = cc
+				wholeOK = true
+				wholeDetail = "digest taken by IntHashSha256"
+				if ex, ok := origin(cc.Call.Args[0]).(*ssa.Extract); ok && ex.Index == 0 {
+					if m, ok := ex.Tuple.(*ssa.Call); ok && isCallTo(m, "encoding/asn1.Marshal") {
+						digestInputOK = true
+					}
+				}
 			case bigMethod(cc) == "SetBytes":
 				setBytes = cc
 				wholeDetail = "SetBytes argument is " + desc(cc.Call.Args[1])
@@ -92,7 +105,7 @@ func hashCommitShape(P *Program, R *Report, rule string) {
 		})
 	})
 	R.decide(rule, key+":one-encoder", "exactly one encoder call, encoding/asn1.Marshal", nMarshal == 1 && marshal != nil, fmt.Sprintf("%d calls", nMarshal), P.Pos(fn.Pos()))
-	R.decide(rule, key+":one-digest", "exactly one digest, crypto/sha256.Sum256", nSum == 1 && sum != nil, fmt.Sprintf("%d calls", nSum), P.Pos(fn.Pos()))
+	R.decide(rule, key+":one-digest", "exactly one digest, crypto/sha256.Sum256 (directly or through IntHashSha256)", nSum == 1 && sum != nil, fmt.Sprintf("%d calls", nSum), P.Pos(fn.Pos()))
 	if marshal == nil || sum == nil {
 		return
 	}
@@ -100,7 +113,7 @@ func hashCommitShape(P *Program, R *Report, rule string) {
 	R.decide(rule, key+":whole-digest", "the returned integer is SetBytes of the whole 32-byte digest (no truncation)", wholeOK, wholeDetail, P.Pos(fn.Pos()))
 	retOK := setBytes != nil
 	for _, r := range returnsOf(fn) {
-		if setBytes == nil || len(r.Results) != 1 || siteOf(origin(r.Results[0])) != siteOf(setBytes) {
+		if setBytes == nil || len(r.Results) != 1 || (siteOf(origin(r.Results[0])) != siteOf(setBytes) && siteOf(r.Results[0]) != siteOf(setBytes)) {
 			retOK = false
 		}
 	}
